@@ -318,6 +318,8 @@ def run(res, ctx):
         truth, y, old, new, today, avail = make_years(ctx, rng, nrows, tier)
         if k == 0:
             old = old or new[: max(1, len(new) // 3)]
+        if k in (1, 2):
+            old = None       # first-ever write of the year: no earlier cache file (both prior states every run)
         total = len(render(new))
         for spec in STEPS[PROC] + [""]:
             jobs.append((truth, y, old, new, today, avail, spec, pick_lookups(rng, new, rng.randrange(total))))
